@@ -1153,6 +1153,12 @@ def install(eng):
 
     reg("iinfo", f_iinfo)
 
+    def f_finfo(eng, st, dt=None):
+        # IEEE-754 binary64 constants (exact rationals)
+        return Opaque("finfo", {"eps": Fraction(1, 2**52), "tiny": Fraction(1, 2**1022), "max": Fraction((2**53 - 1) * 2**971), "min": -Fraction((2**53 - 1) * 2**971)})
+
+    reg("finfo", f_finfo)
+
     def f_errstate(eng, st, **kw):
         return Opaque("errstate")
 
